@@ -154,6 +154,9 @@ class C09:
             yield {"t": "table", "name": name}
         for p in pd.corpus_files():
             yield {"t": "corpus", "path": p}
+        for vt, name in cpython_chain(self.tabs):
+            if vt != (1, 2):        # 1.2 shares its magic number with 1.1 and has no release name of its own (see C06)
+                yield {"t": "patchlevel", "major": vt[0], "minor": vt[1]}
 
     def ref_tables(self, ctx, v):
         key = ("optab", v)
@@ -171,7 +174,44 @@ class C09:
             return self.judge_corpus(case, ctx, res)
         if t == "probe":
             return self.judge_probe(case, ctx, res)
+        if t == "patchlevel":
+            return self.judge_patchlevel(case, ctx, res)
         res.reject = "malformed-case"
+        return res
+
+    # ------------------------------------------------------------------
+    def judge_patchlevel(self, case, ctx, res):
+        """whatever the patch level or release stage asked for - listed or not - the table is the one of major.minor"""
+        try:
+            vt = (int(case["major"]), int(case["minor"]))
+        except Exception:
+            res.reject = "malformed-case"
+            return res
+        x = self.x
+        want = [n for v, n in cpython_chain(self.tabs) if v == vt]
+        if not want:
+            res.reject = "no-such-table"
+            return res
+        want = self.tabs[want[0]]
+        n = 0
+        for patch in (0, 1, 2, 9, 10, 12, 17, 19, 25, 99):
+            for vi in ((vt[0], vt[1], patch), (vt[0], vt[1], patch, "final", 0), (vt[0], vt[1], patch, "candidate", 1)):
+                n += 1
+                try:
+                    got = x.op_imports.get_opcode_module(vi, "")
+                except Exception as e:
+                    if len(vi) > 3 and vi[3] != "final":
+                        continue        # release stages the tables do not list may be refused
+                    res.fail("C09|patchlevel|raised|%s" % type(e).__name__, "get_opcode_module(%r) raised %s: %s" % (vi, type(e).__name__, e))
+                    continue
+                if tuple(got.version_tuple[:2]) != vt or got.opmap != want.opmap:
+                    res.fail("C09|patchlevel|wrong-table|%d.%d" % vt, "get_opcode_module(%r) gives the table of %s, not of %d.%d" % (
+                        vi, got.version_tuple, vt[0], vt[1]))
+                    break
+        res.evals = n
+        res.nt_keys = [["patchlevel", vt[0], vt[1]]]
+        res.classes.append("patchlevel")
+        res.sample = {"kind": "patch levels", "version": "%d.%d" % vt, "asked": n}
         return res
 
     # ------------------------------------------------------------------
